@@ -48,7 +48,7 @@ def check(run, repo, tier):
 
 # --------------------------------------------------------------------------------------- R1
 
-def r1_who_may_emit(run, w, RID, with_adds=False):
+def r1_who_may_emit(run, w, RID, with_adds=False, extras_rule=None):
   run.rule(RID, "record actions with values reach the gateway only through "
            "convert_action_values / enumerated raw sources; convert_action_values runs "
            "prepare_new_values for every written column and its adjustments are all applied",
@@ -56,7 +56,7 @@ def r1_who_may_emit(run, w, RID, with_adds=False):
   H.who_may_emit(run, w, RID, "a write that skips prepare_new_values skips the reverse-column "
                  "and position adjustments")
   convert_calls_prepare(run, w, RID, with_adds)
-  extras_applied(run, w, RID)
+  extras_applied(run, w, extras_rule or RID)
 
 
 def convert_calls_prepare(run, w, RID, with_adds):
@@ -708,7 +708,7 @@ def r5_ownership(run, w):
                 "ReferenceRelation.get_affected_rows hands out the ALL_ROWS marker or a container "
                 "built in the call, never one stored in the relation", floor=6)
   fn = w.fn("reverse_references.get_reverse_adjustments")
-  flow = H.Flow(fn)
+  flow = H.Flow(fn, passthrough=False)     # list(x)/sorted(x) are copies here, not aliases
   mod = fn.fi.module
   callee_sites = []
   sites = []
@@ -782,7 +782,7 @@ def _relation_classes(w, callee, pname):
 
 def _fresh_returns(run, R5, w, m):
   fn = w.fn_of(m)
-  flow = H.Flow(fn)
+  flow = H.Flow(fn, passthrough=False)
   cfg = fn.cfg
   rets = [n for n in cfg.nodes if n.kind == "return"]
   if not rets:
@@ -889,10 +889,10 @@ VARIANTS = [
         extra_actions.extend(adjustments)
 
       new_values[col_id] = nvalues""", "C11-R1"),
-  ("raw-update-in-copy-from-column", U,
-   """    self.doBulkUpdateRecord(table_id, row_ids, {dst_col_id: new_values})""",
-   """    self._do_doc_action(actions.BulkUpdateRecord(table_id, row_ids, {dst_col_id: new_values}))""",
-   "C11-R1"),
+  ("raw-update-from-pairs", U,
+   "    return self.doBulkUpdateRecord(table_id, row_ids, make_bulk_values_dict(record_values_pairs))",
+   "    return self._do_doc_action(actions.BulkUpdateRecord(\n"
+   "      table_id, row_ids, make_bulk_values_dict(record_values_pairs)))", "C11-R1"),
   ("old-values-from-new", CO,
    "      old_values = [self.raw_get(r) for r in row_ids]",
    "      old_values = list(values)", "C11-R2"),
